@@ -26,7 +26,7 @@ RULE = ('(language, model) pairs from G_lang x G_model (with attackers) x {same 
         'differential between runs - the canonical JSON of AttackGraph._to_dict() (ids, names, attributes, edges, '
         'attackers) must be identical across all configurations; Model._to_dict() and the specification dict must '
         'equal their snapshots after generation, attachment and analysis; two graphs built from the same model '
-        'share no node object. Fresh processes are batched (one child interpreter per hash seed per batch). '
+        'share no node object. The fresh processes also run the wrapper from both file kinds and their results must agree across hash seeds. Fresh processes are batched (one child interpreter per hash seed per batch). '
         'Non-trivial: the language has a set operator and an extended (+>) step and the graph has an edge.')
 ASSUMPTIONS = ['hash seeds are sampled, not exhausted',
                'defense values are given as floats (the value type an instance-model file yields), so that the in-memory model and the model loaded by the wrapper are the same model',
@@ -182,7 +182,7 @@ def check_fresh_processes(case) -> Outcome:
         if g is not None and _nontrivial(c['spec'], g):
             out.nontrivial = True
     for i in range(len(batch)):
-        vals = {hs: results[hs][i] for hs in HASH_SEEDS}
+        vals = {hs: results[hs][i][0] for hs in HASH_SEEDS}
         if any(v.startswith('error') for v in vals.values()) or mine[i] == 'error':
             out.classes.append('skipped:generation-error')
             continue
@@ -190,6 +190,14 @@ def check_fresh_processes(case) -> Outcome:
             out.add('graph-depends-on-hash-seed', f'pair {i}: {vals}')
         elif vals['0'] != mine[i]:
             out.add('fresh-process-differs-from-harness-process', f'pair {i}')
+        # the file-based wrapper in the fresh processes (from the .mar and from the printed .mal)
+        for k, kind in ((1, 'mar'), (2, 'mal')):
+            wv = {hs: results[hs][i][k] for hs in HASH_SEEDS if len(results[hs][i]) > k}
+            if len(wv) != len(HASH_SEEDS) or any(v.startswith('error') for v in wv.values()):
+                out.classes.append(f'skipped:wrapper-{kind}-error')
+                continue
+            if len(set(wv.values())) != 1:
+                out.add(f'wrapper-{kind}:graph-depends-on-hash-seed', f'pair {i}: {wv}')
     return out
 
 
